@@ -849,6 +849,60 @@ impl<T: RequestHandler> ServerContext<T> {
     }
 }
 
+/// Verification instrumentation, compiled only with the `verif-hooks` feature: drives the
+/// server's request front door (header gate, opcode gate, question parse, access control,
+/// full parse, handler dispatch) in-process, without sockets.
+#[cfg(feature = "verif-hooks")]
+pub struct VerifFrontDoor<T> {
+    context: ServerContext<T>,
+}
+
+#[cfg(feature = "verif-hooks")]
+impl<T: RequestHandler> VerifFrontDoor<T> {
+    /// Build a front door around `handler` with the given denied and allowed networks,
+    /// exactly as [`Server::with_access`] does.
+    pub fn new(
+        handler: T,
+        denied_networks: impl IntoIterator<Item = IpNet>,
+        allowed_networks: impl IntoIterator<Item = IpNet>,
+    ) -> Self {
+        let mut access = AccessControl::default();
+        access.insert_deny(denied_networks);
+        access.insert_allow(allowed_networks);
+
+        Self {
+            context: ServerContext {
+                handler,
+                access,
+                shutdown: CancellationToken::new(),
+            },
+        }
+    }
+
+    /// Process one raw request as if it had been received from `src_addr` over `protocol`;
+    /// responses are delivered to `response_handler`.
+    pub async fn handle(
+        &self,
+        bytes: Vec<u8>,
+        src_addr: SocketAddr,
+        protocol: Protocol,
+        response_handler: BufDnsStreamHandle,
+    ) {
+        self.context
+            .handle_raw_request(
+                SerialMessage::new(bytes, src_addr),
+                protocol,
+                response_handler,
+            )
+            .await
+    }
+
+    /// The wrapped request handler.
+    pub fn handler(&self) -> &T {
+        &self.context.handler
+    }
+}
+
 // method to return an error to the client
 async fn error_response_handler(
     protocol: Protocol,
